@@ -85,6 +85,26 @@ theorem linearSeparated_affine_exact (ext : Bool) (sep : List (List K)) (c0 : K)
   exact interpFlat_affine ext sep.reverse c0 c.reverse p.reverse (by simp [hc]) (by simp [hp])
     (fun ax h => hax ax (List.mem_reverse.mp h)) hin
 
+/-- **Linear interpolation reproduces affine functions, in hcipy's own conventions**: the field `f(q) = c0 + c·q`
+sampled on the grid (hcipy point order), interpolated at `p = [x, y, …]`, gives `f(p)` — no reversed lists in the
+statement. -/
+theorem linearSeparated_affine_exact_direct (ext : Bool) (sep : List (List K)) (c0 : K) (c p : List K)
+    (hc : c.length = sep.length) (hp : p.length = sep.length)
+    (hax : ∀ ax ∈ sep, 2 ≤ ax.length ∧ StrictMono ax)
+    (hin : ext = true ∨ InDomain sep.reverse p.reverse) :
+    linearSeparated ext sep ((gridPts sep).map (affine c0 c)) p = some (affine c0 c p) := by
+  have h1 : (gridPts sep).map (affine c0 c) = sampleAffine sep.reverse c0 c.reverse := by
+    rw [sampleAffine_eq_map sep.reverse c0 c.reverse (by simp [hc])]
+    simp only [gridPts, List.map_map]
+    apply List.map_congr_left
+    intro t ht
+    have hl : t.length = c.length := by rw [tensorPts_length _ _ ht, List.length_reverse, hc]
+    simp only [Function.comp]
+    have := affine_reverse c0 c t.reverse (by simp [hl])
+    rw [List.reverse_reverse] at this
+    exact this.symm
+  rw [h1, linearSeparated_affine_exact ext sep c0 c p hc hp hax hin, affine_reverse c0 c p (by rw [hc, hp])]
+
 /-- **1-D: the interpolant returns the sample value at every knot**, for arbitrary values: for
 every pair (knot, value) of the table, interpolating at the knot gives the value. -/
 theorem interp1_hits_samples_ascending (ext : Bool) :
@@ -156,6 +176,150 @@ theorem interp1_hits_samples (ext : Bool) (knots vals : List K) (first : Bool)
       (by rw [List.zip_map_left]; exact List.mem_map.mpr ⟨xv, hxv, rfl⟩)
     simpa using this
 
+/-! ### sample hitting in any dimension (supersedes the 1-D `head?` form above) -/
+
+/-- one axis, ascending knots, any block size and any inner interpolant that is defined on every block:
+at the `i`-th knot the axis returns what the inner interpolant returns on the `i`-th block -/
+theorem interpAxis_hits_inc (ext : Bool) (m : Nat) (rec : List K → Option K) :
+    ∀ (knots vals : List K) (first : Bool), 2 ≤ knots.length → StrictInc knots →
+      (∀ j < knots.length, ∃ w, rec ((vals.drop (j * m)).take m) = some w) →
+      ∀ (i : Nat) (hi : i < knots.length),
+        interpAxis ext m rec first knots vals knots[i] = rec ((vals.drop (i * m)).take m) := by
+  intro knots
+  induction knots with
+  | nil => intro vals first h2; simp at h2
+  | cons a knots ih =>
+    intro vals first h2 hs hrec i hi
+    match knots, h2, hs, hrec, hi with
+    | b :: rest, _, hs, hrec, hi =>
+      have hab : a < b := hs.1
+      obtain ⟨va, hva⟩ := hrec 0 (by simp)
+      obtain ⟨vb, hvb⟩ := hrec 1 (by simp)
+      simp only [Nat.zero_mul, List.drop_zero, Nat.one_mul] at hva hvb
+      cases i with
+      | zero =>
+        have hc : (((ext && first) || decide (a ≤ a)) && ((ext && rest.isEmpty) || decide (a ≤ b))) = true := by
+          simp [le_of_lt hab]
+        simp only [List.getElem_cons_zero, interpAxis, inLo_inc hab, inHi_inc hab, Nat.zero_mul, List.drop_zero]
+        rw [hc]
+        simp [hva, hvb, (lerp_hits_samples a b va vb (ne_of_lt hab)).1]
+      | succ i =>
+        simp only [List.getElem_cons_succ]
+        have hi' : i < (b :: rest).length := by simpa using hi
+        have hbx : b ≤ (b :: rest)[i] := by
+          cases i with
+          | zero => simp
+          | succ k => exact le_of_lt (knot_gt b rest hs.2 _ (List.getElem_mem _))
+        have hax : a ≤ (b :: rest)[i] := le_trans (le_of_lt hab) hbx
+        have hdrop : (vals.drop m).drop (i * m) = vals.drop ((i + 1) * m) := by
+          rw [List.drop_drop]; congr 1; ring
+        by_cases hxb : (b :: rest)[i] ≤ b
+        · have heq : (b :: rest)[i] = b := le_antisymm hxb hbx
+          have hi0 : i = 0 := by
+            cases i with
+            | zero => rfl
+            | succ k =>
+              have := knot_gt b rest hs.2 _ (List.getElem_mem (l := rest) (n := k) (by simpa using hi'))
+              simp only [List.getElem_cons_succ] at heq
+              rw [heq] at this
+              exact absurd this (lt_irrefl _)
+          subst hi0
+          have hc : (((ext && first) || decide (a ≤ b)) && ((ext && rest.isEmpty) || decide (b ≤ b))) = true := by
+            simp [le_of_lt hab]
+          simp only [List.getElem_cons_zero, interpAxis, inLo_inc hab, inHi_inc hab, Nat.zero_add, Nat.one_mul]
+          rw [hc]
+          simp [hva, hvb, (lerp_hits_samples a b va vb (ne_of_lt hab)).2]
+        · have hne : rest ≠ [] := by
+            intro h; subst h
+            have : i = 0 := by simpa using hi'
+            subst this
+            exact hxb (le_refl _)
+          have hc : (((ext && first) || decide (a ≤ (b :: rest)[i])) && ((ext && rest.isEmpty) || decide ((b :: rest)[i] ≤ b))) = false := by
+            simp [hxb, hne]
+          have hlen : 2 ≤ (b :: rest).length := by
+            cases rest with
+            | nil => exact absurd rfl hne
+            | cons c r => simp
+          have hrec' : ∀ j < (b :: rest).length, ∃ w, rec (((vals.drop m).drop (j * m)).take m) = some w := by
+            intro j hj
+            obtain ⟨w, hw⟩ := hrec (j + 1) (by simpa using hj)
+            refine ⟨w, ?_⟩
+            rw [List.drop_drop]
+            have : m + j * m = (j + 1) * m := by ring
+            rw [this]; exact hw
+          have := ih (vals.drop m) false hlen hs.2 hrec' i hi'
+          rw [interpAxis]
+          simp only [inLo_inc hab, inHi_inc hab]
+          rw [hc]
+          simp only [Bool.false_eq_true, if_false]
+          rw [this, hdrop]
+
+theorem interpAxis_hits (ext : Bool) (m : Nat) (rec : List K → Option K) (knots vals : List K) (first : Bool)
+    (h2 : 2 ≤ knots.length) (hs : StrictMono knots)
+    (hrec : ∀ j < knots.length, ∃ w, rec ((vals.drop (j * m)).take m) = some w) (i : Nat) (hi : i < knots.length) :
+    interpAxis ext m rec first knots vals knots[i] = rec ((vals.drop (i * m)).take m) := by
+  rcases hs with hs | hs
+  · exact interpAxis_hits_inc ext m rec knots vals first h2 hs hrec i hi
+  · rw [interpAxis_neg ext m rec knots vals first _ hs]
+    have := interpAxis_hits_inc ext m rec (knots.map fun t => -t) vals first (by simpa using h2)
+      (strictDec_neg _ hs) (by simpa using hrec) i (by simpa using hi)
+    simpa using this
+
+/-- **N-D: the tensor-product interpolant returns the sample at every grid point**, for arbitrary sample
+values: at the grid point with per-axis indices `idx` it returns the value stored at flat index `ravel dims idx`. -/
+theorem interpFlat_hits_samples (ext : Bool) : ∀ (axes : List (List K)) (vals : List K) (idx : List Nat),
+    (∀ ax ∈ axes, 2 ≤ ax.length ∧ StrictMono ax) → vals.length = size (axes.map List.length) → IdxOk axes idx →
+    interpFlat ext axes vals (pointAt axes idx) = vals[ravel (axes.map List.length) idx]? := by
+  intro axes
+  induction axes with
+  | nil =>
+    intro vals idx _ hv hok
+    cases idx with
+    | nil =>
+      match vals, hv with
+      | [v], _ => simp [interpFlat, pointAt, ravel]
+    | cons i idx => simp [IdxOk] at hok
+  | cons ax rest ih =>
+    intro vals idx hax hv hok
+    cases idx with
+    | nil => simp [IdxOk] at hok
+    | cons i idx =>
+      obtain ⟨h0, h1⟩ := hok
+      have hrest : ∀ a ∈ rest, 2 ≤ a.length ∧ StrictMono a := fun a ha => hax a (by simp [ha])
+      simp only [List.map_cons, size_cons] at hv
+      set M := size (rest.map List.length) with hM
+      have hblk : ∀ j < ax.length, ((vals.drop (j * M)).take M).length = M := by
+        intro j hj
+        rw [List.length_take, List.length_drop, hv]
+        have : (j + 1) * M ≤ ax.length * M := Nat.mul_le_mul_right _ hj
+        have e : (j + 1) * M = j * M + M := by ring
+        omega
+      have hr := ravel_lt_size rest idx h1
+      have hrec : ∀ j < ax.length, ∃ w, (fun v => interpFlat ext rest v (pointAt rest idx)) ((vals.drop (j * M)).take M) = some w := by
+        intro j hj
+        simp only
+        rw [ih _ idx hrest (hblk j hj) h1]
+        exact ⟨_, List.getElem?_eq_getElem (by rw [hblk j hj]; exact hr)⟩
+      have hg : ax.getD i 0 = ax[i] := by simp [List.getD_eq_getElem?_getD, List.getElem?_eq_getElem h0]
+      simp only [pointAt, interpFlat, List.map_cons, ravel, hg]
+      rw [interpAxis_hits ext M _ ax vals true (hax ax (by simp)).1 (hax ax (by simp)).2 hrec i h0]
+      rw [ih _ idx hrest (hblk i h0) h1, take_drop_getElem? _ _ _ _ hr]
+
+/-- **Linear interpolation on separated / regular grids returns the sample at every sample point** (any dimension,
+knots strictly monotone in either direction per axis, arbitrary sample values `f q`, `q` running over the grid in
+hcipy order). -/
+theorem linearSeparated_hits_samples (ext : Bool) (sep : List (List K)) (f : List K → K)
+    (hax : ∀ ax ∈ sep, 2 ≤ ax.length ∧ StrictMono ax) :
+    ∀ q ∈ gridPts sep, linearSeparated ext sep ((gridPts sep).map f) q = some (f q) := by
+  intro q hq
+  obtain ⟨t, ht, rfl⟩ := List.mem_map.mp hq
+  obtain ⟨idx, hok, rfl⟩ := mem_tensorPts_pointAt sep.reverse t ht
+  unfold linearSeparated
+  rw [List.reverse_reverse, interpFlat_hits_samples ext sep.reverse _ idx
+    (fun ax ha => hax ax (List.mem_reverse.mp ha)) (by simp [gridPts, tensorPts_len]) hok]
+  simp only [gridPts, List.map_map, List.getElem?_map, tensorPts_getElem?_ravel sep.reverse idx hok,
+    Option.map_some, Function.comp]
+
 /-! ## barycentric interpolation -/
 
 /-- **Barycentric interpolation on any simplex (any dimension) is exact on affine functions**:
@@ -193,6 +357,23 @@ theorem linearTriangle_hits_vertices (a b c : K × K) (va vb vc : K)
     field_simp
     rw [← hd]; ring
 
+/-- the hypotheses are satisfiable: `hdet` on the unit triangle; `hsum`, `hcomb` for a triangle
+(2-D) and a tetrahedron (3-D) with concrete weights -/
+example : (((1 : Rat), (0 : Rat)).1 - ((0 : Rat), (0 : Rat)).1) * (((0 : Rat), (1 : Rat)).2 - ((0 : Rat), (0 : Rat)).2)
+    - (((0 : Rat), (1 : Rat)).1 - ((0 : Rat), (0 : Rat)).1) * (((1 : Rat), (0 : Rat)).2 - ((0 : Rat), (0 : Rat)).2) ≠ 0 := by
+  norm_num
+
+example : linearTriangle ((0 : Rat), (0 : Rat)) (1, 0) (0, 1) 5 7 11 (1 / 4, 1 / 2) = some (17 / 2) := by
+  decide +kernel
+
+example : ([1 / 4, 1 / 4, 1 / 2] : List Rat).sum = 1 ∧
+    wsum 2 ([1 / 4, 1 / 4, 1 / 2] : List Rat) [[0, 0], [1, 0], [0, 1]] = [1 / 4, 1 / 2] := by
+  constructor <;> decide +kernel
+
+example : ([1 / 2, 1 / 8, 1 / 8, 1 / 4] : List Rat).sum = 1 ∧
+    wsum 3 ([1 / 2, 1 / 8, 1 / 8, 1 / 4] : List Rat) [[0, 0, 0], [2, 0, 0], [0, 4, 0], [0, 0, 8]] = [1 / 4, 1 / 2, 2] := by
+  constructor <;> decide +kernel
+
 /-! ## nearest neighbour -/
 
 /-- **Nearest neighbour returns a minimiser of the squared distance** (scattered points, any
@@ -226,6 +407,65 @@ theorem nearest_defined (pts : List (List K)) (p : List K) (h : pts ≠ []) :
     | some r =>
       obtain ⟨j, d⟩ := r
       by_cases hle : dist2 q p ≤ d <;> simp [hle]
+
+/-- **The set the driver prints is exactly the set of closest samples**: `minimisers` (executed by
+the op `near-uns`, compared with what SciPy's k-d tree returns) contains `i` iff `pts[i]` is at
+minimal squared distance from `p`. -/
+theorem mem_minimisers (pts : List (List K)) (p : List K) (i : Nat) :
+    i ∈ minimisers pts p ↔ ∃ hi : i < pts.length, ∀ q ∈ pts, dist2 pts[i] p ≤ dist2 q p := by
+  unfold minimisers
+  cases hr : argminFrom p 0 pts with
+  | none =>
+    have hnil : pts = [] := by
+      cases pts with
+      | nil => rfl
+      | cons q' pts' =>
+        simp only [argminFrom] at hr
+        split at hr <;> (try split at hr) <;> simp at hr
+    subst hnil
+    simp
+  | some r =>
+    obtain ⟨j, d⟩ := r
+    obtain ⟨⟨k, _, hk, hd⟩, hmin⟩ := argminFrom_spec p pts 0 j d hr
+    simp only [List.mem_filter, List.mem_range, beq_iff_eq]
+    constructor
+    · rintro ⟨hi, he⟩
+      refine ⟨hi, fun q hq => ?_⟩
+      have : pts.getD i [] = pts[i] := by simp [List.getD_eq_getElem?_getD, List.getElem?_eq_getElem hi]
+      rw [this] at he
+      rw [he]; exact hmin q hq
+    · rintro ⟨hi, hall⟩
+      refine ⟨hi, ?_⟩
+      have : pts.getD i [] = pts[i] := by simp [List.getD_eq_getElem?_getD, List.getElem?_eq_getElem hi]
+      rw [this]
+      apply le_antisymm
+      · rw [← hd]; exact hall _ (List.getElem_mem hk)
+      · exact hmin _ (List.getElem_mem hi)
+
+/-- the index `nearestUnstructured` uses is one of them (the first) -/
+theorem nearestUnstructuredIdx_mem_minimisers (pts : List (List K)) (p : List K) (i : Nat)
+    (h : nearestUnstructuredIdx pts p = some i) : i ∈ minimisers pts p :=
+  (mem_minimisers pts p i).mpr (nearest_returns_closest pts p i h)
+
+/-- **value level**: what `nearestUnstructured` returns (executed by `near-uns`, printed after
+`first`) is the sample value of a closest point -/
+theorem nearestUnstructured_value (pts : List (List K)) (vals : List K) (p : List K) (v : K)
+    (h : nearestUnstructured pts vals p = some v) :
+    ∃ i, i ∈ minimisers pts p ∧ vals[i]? = some v ∧
+      ∃ hi : i < pts.length, ∀ q ∈ pts, dist2 pts[i] p ≤ dist2 q p := by
+  unfold nearestUnstructured at h
+  cases hi : nearestUnstructuredIdx pts p with
+  | none => rw [hi] at h; simp at h
+  | some i =>
+    rw [hi] at h
+    exact ⟨i, nearestUnstructuredIdx_mem_minimisers pts p i hi, h, nearest_returns_closest pts p i hi⟩
+
+/-- and it is defined as soon as there is a sample point and one value per point -/
+theorem nearestUnstructured_defined (pts : List (List K)) (vals : List K) (p : List K)
+    (h : pts ≠ []) (hl : vals.length = pts.length) : ∃ v, nearestUnstructured pts vals p = some v := by
+  obtain ⟨i, hi⟩ := nearest_defined pts p h
+  obtain ⟨hlt, _⟩ := nearest_returns_closest pts p i hi
+  exact ⟨vals[i]'(by omega), by simp [nearestUnstructured, hi]⟩
 
 /-- nearest neighbour along one *ascending* axis: the knot picked is a closest knot -/
 theorem nearestAxis_returns_closest_ascending : ∀ (knots : List K) (x : K) (i : Nat), StrictInc knots →
@@ -414,6 +654,68 @@ theorem nearest_separated_returns_closest : ∀ (axes : List (List K)) (p : List
           rw [hg]
           exact add_le_add (hmin t ht) this
 
+/-- **Definedness companion** of `nearest_separated_returns_closest`: inside the sampled domain (per-axis knots
+strictly monotone in either direction, at least two of them) the per-axis search succeeds on every axis -/
+theorem nearestIdx_defined : ∀ (axes : List (List K)) (p : List K),
+    (∀ ax ∈ axes, 2 ≤ ax.length ∧ StrictMono ax) → InDomain axes p → ∃ idx, nearestIdx axes p = some idx := by
+  intro axes
+  induction axes with
+  | nil =>
+    intro p _ hin
+    cases p with
+    | nil => exact ⟨[], rfl⟩
+    | cons x p => simp [InDomain] at hin
+  | cons ax rest ih =>
+    intro p hax hin
+    cases p with
+    | nil => simp [InDomain] at hin
+    | cons x p =>
+      obtain ⟨h1, h2⟩ := hin
+      obtain ⟨i, hi⟩ := nearestAxis_defined ax x (hax ax (by simp)).1 (hax ax (by simp)).2 h1
+      obtain ⟨idx, hidx⟩ := ih p (fun a ha => hax a (by simp [ha])) h2
+      exact ⟨i :: idx, by simp [nearestIdx, hi, hidx]⟩
+
+/-- **Nearest neighbour on separated grids returns the value at a closest grid point**: whenever the
+interpolator built from the samples `f q` (`q` running over the grid in hcipy order) returns a value at `p`, that
+value is `f q` for a grid point `q` at minimal distance from `p` among all grid points. -/
+theorem nearestSeparated_value (sep : List (List K)) (f : List K → K) (p : List K) (v : K)
+    (hs : ∀ ax ∈ sep, StrictMono ax) (h : nearestSeparated sep ((gridPts sep).map f) p = some v) :
+    ∃ q ∈ gridPts sep, v = f q ∧ ∀ q' ∈ gridPts sep, dist2 q p ≤ dist2 q' p := by
+  unfold nearestSeparated at h
+  cases hi : nearestIdx sep.reverse p.reverse with
+  | none => simp [hi] at h
+  | some idx =>
+    rw [hi] at h
+    simp only at h
+    obtain ⟨hok, hlen⟩ := nearestIdx_ok sep.reverse p.reverse idx hi
+    have hget := tensorPts_getElem?_ravel sep.reverse idx hok
+    simp only [gridPts, List.map_map, List.getElem?_map, hget, Option.map_some, Function.comp,
+      Option.some.injEq] at h
+    refine ⟨(pointAt sep.reverse idx).reverse, ?_, h.symm, ?_⟩
+    · exact List.mem_map.mpr ⟨_, pointAt_mem _ _ hok, rfl⟩
+    · intro q' hq'
+      obtain ⟨t, ht, rfl⟩ := List.mem_map.mp hq'
+      have hmin := nearest_separated_returns_closest sep.reverse p.reverse idx
+        (fun ax ha => hs ax (List.mem_reverse.mp ha)) hi t ht
+      have hl1 : (pointAt sep.reverse idx).length = p.reverse.length := by
+        rw [tensorPts_length _ _ (pointAt_mem _ _ hok), hlen]
+      have hl2 : t.length = p.reverse.length := by rw [tensorPts_length _ _ ht, hlen]
+      have e1 := dist2_reverse (pointAt sep.reverse idx) p.reverse hl1
+      have e2 := dist2_reverse t p.reverse hl2
+      rw [List.reverse_reverse] at e1 e2
+      rw [e1, e2]
+      exact hmin
+
+/-- … and it does return a value at every point of the sampled domain -/
+theorem nearestSeparated_defined (sep : List (List K)) (f : List K → K) (p : List K)
+    (hax : ∀ ax ∈ sep, 2 ≤ ax.length ∧ StrictMono ax) (hin : InDomain sep.reverse p.reverse) :
+    ∃ v, nearestSeparated sep ((gridPts sep).map f) p = some v := by
+  obtain ⟨idx, hi⟩ := nearestIdx_defined sep.reverse p.reverse (fun ax ha => hax ax (List.mem_reverse.mp ha)) hin
+  obtain ⟨hok, _⟩ := nearestIdx_ok sep.reverse p.reverse idx hi
+  have hget := tensorPts_getElem?_ravel sep.reverse idx hok
+  exact ⟨f (pointAt sep.reverse idx).reverse, by
+    simp only [nearestSeparated, hi, gridPts, List.map_map, List.getElem?_map, hget, Option.map_some, Function.comp]⟩
+
 /-! ## binning -/
 
 /-- **`statistic='sum'` conserves the total**, any shape, any factor. -/
@@ -458,6 +760,81 @@ theorem bin_weighted_mean_conserved (s : Nat) (dims : List Nat) (v w : List K)
   unfold binWMean
   rw [key _ _ hpos (by rw [binND_length _ _ _ hvw, binND_length _ _ _ hw]), binND_sum _ _ _ hvw]
 
+/-- `hpos` is satisfiable (weights `[1,2,1,3]`, factor 2: binned weights `[3,4]`); without it the
+model divides by zero silently: `binWMean 2 [1] [3,5] [1,-1] = [0]` -/
+example : (∀ x ∈ binND 2 [2] ([1, 2, 1, 3] : List Rat), x ≠ 0) ∧
+    binWMean 2 [1] ([3, 5] : List Rat) [1, -1] = [0] := by
+  constructor <;> decide +kernel
+
+/-- **Per-axis factors** (`subsample_field(field, np.array([sx, sy]))`, D180; executed by the driver
+op `bins`): `statistic='sum'` conserves the total for any list of factors. -/
+theorem bins_sum_conserved (ss dims : List Nat) (hl : ss.length = dims.length) (v : List K)
+    (h : v.length = fineSizes ss dims) : (binNDs ss dims v).sum = v.sum :=
+  binNDs_sum ss dims hl v h
+
+/-- per-axis factors, `statistic='mean'`: the mean is conserved -/
+theorem bins_mean_conserved (ss dims : List Nat) (hl : ss.length = dims.length) (v : List K)
+    (h : v.length = fineSizes ss dims) :
+    (binMeans ss dims v).sum / (size dims : K) = v.sum / (fineSizes ss dims : K) := by
+  have : (binMeans ss dims v).sum = (binNDs ss dims v).sum / ((ss.foldr (· * ·) 1 : Nat) : K) := by
+    simp only [binMeans, div_eq_mul_inv]
+    rw [List.sum_map_mul_right]
+    simp
+  rw [this, binNDs_sum ss dims hl v h, fineSizes_eq ss dims hl]
+  push_cast
+  rw [div_div, mul_comm]
+
+/-- the binned field has one value per coarse pixel -/
+theorem bins_length (ss dims : List Nat) (hl : ss.length = dims.length) (v : List K)
+    (h : v.length = fineSizes ss dims) : (binNDs ss dims v).length = size dims :=
+  binNDs_length ss dims hl v h
+
+/-- a scalar factor is the per-axis list with that factor repeated (what `np.ones(ndim) * s` makes of it):
+the two driver ops `bin` and `bins` run the same function there -/
+theorem bins_uniform_eq_bin (s : Nat) (dims : List Nat) (v : List K) :
+    binNDs (dims.map fun _ => s) dims v = binND s dims v ∧
+    binMeans (dims.map fun _ => s) dims v = binMean s dims v := by
+  refine ⟨binNDs_replicate s dims v, ?_⟩
+  have hp : (dims.map fun _ => s).foldr (· * ·) 1 = s ^ dims.length := by
+    induction dims with
+    | nil => rfl
+    | cons n rest ih => simp only [List.map_cons, List.foldr_cons, List.length_cons, pow_succ, ih, mul_comm]
+  unfold binMeans binMean
+  rw [binNDs_replicate, hp]
+
+example : ([2, 3] : List Nat).length = ([3, 2] : List Nat).length ∧
+    ([1, 2, 3, 4, 5, 6, 7, 8, 9, 10, 11, 12, 13, 14, 15, 16, 17, 18, 19, 20, 21, 22, 23, 24, 25, 26, 27, 28, 29, 30, 31, 32, 33, 34, 35, 36] : List Rat).length
+      = fineSizes [2, 3] [3, 2] := by
+  decide
+
+/-- **The index map of binning** (what "conserves" does not say: *which* fine samples a coarse pixel adds up).
+Pixel `c` (multi-index, slowest axis first) of the binned array is the sum of the fine samples over the box
+`c·s + r`, `r_k < s_k`: `boxSums` is the closed form `Σ_{r_0<s_0} Σ_{r_1<s_1} … v[flatIdx fine (c·s + r)]`
+(Model/Binning.lean; itself run by the driver op `binpix` and compared with the pixel the real code returns).
+A `binNDs` that permuted or mis-grouped pixels would violate this theorem. -/
+theorem bins_pixel (dims ss c : List Nat) (hl : ss.length = dims.length) (hc : InBounds dims c) (v : List K)
+    (h : v.length = fineSizes ss dims) :
+    (binNDs ss dims v).getD (flatIdx dims c) 0 = boxSums dims ss c (fun f => v.getD f 0) :=
+  binNDs_getD dims ss c hl hc v h
+
+/-- the same for one common factor `s` -/
+theorem bin_pixel (s : Nat) (dims c : List Nat) (hc : InBounds dims c) (v : List K)
+    (h : v.length = fineSize s dims) :
+    (binND s dims v).getD (flatIdx dims c) 0 = boxSums dims (dims.map fun _ => s) c (fun f => v.getD f 0) :=
+  binND_getD s dims c hc v h
+
+/-- two dimensions written out: pixel `(cy, cx)` of the `ny × nx` image is
+`Σ_{ry<sy} Σ_{rx<sx} v[(cy·sy + ry)·(nx·sx) + (cx·sx + rx)]` -/
+theorem bins_pixel_2d (ny nx sy sx cy cx : Nat) (hy : cy < ny) (hx : cx < nx) (v : List K)
+    (h : v.length = ny * sy * (nx * sx)) :
+    (binNDs [sy, sx] [ny, nx] v).getD (cy * nx + cx) 0 =
+      ((List.range sy).map fun ry => ((List.range sx).map fun rx =>
+        v.getD ((cy * sy + ry) * (nx * sx) + (cx * sx + rx)) 0).sum).sum := by
+  have := bins_pixel [ny, nx] [sy, sx] [cy, cx] rfl ⟨hy, hx, trivial⟩ v (by simp [fineSizes, h])
+  simpa [flatIdx, boxSums, size, fineSizes] using this
+
+example : InBounds [2, 3] [1, 2] ∧ ¬ InBounds [2, 3] [1, 3] := by decide
+
 /-- **Tensor components are binned independently**: binning the stacked components equals
 stacking the binned components. -/
 theorem bin_tensor_independent (s : Nat) (dims : List Nat) (comps : List (List K))
@@ -465,6 +842,39 @@ theorem bin_tensor_independent (s : Nat) (dims : List Nat) (comps : List (List K
     binTensor s dims comps.length comps.flatten = (comps.map (binND s dims)).flatten := by
   unfold binTensor
   rw [chunks_flatten_eq _ _ h, List.flatMap_def]
+
+/-- **Tensor components are binned independently — about the reshape the code performs.**  `binTensorL` is the
+code's single `reshape` to `tensor_shape + (n_1, s_1, …)` followed by one reduction over the `s` axes (the tensor
+axes are unbinned leading axes of the same array; driver op `bintl`).  Binning the stacked components that way
+equals stacking the separately binned components, for every tensor shape and per-axis factors.  (The theorem
+`bin_tensor_independent` above is about `binTensor`, which is component-wise by definition.) -/
+theorem bin_tensor_reshape_independent (ss dims tshape : List Nat) (comps : List (List K))
+    (hn : comps.length = size tshape) (h : ∀ c ∈ comps, c.length = fineSizes ss dims) :
+    binTensorL ss dims tshape comps.flatten = (comps.map (binNDs ss dims)).flatten := by
+  have hlen : comps.flatten.length = size tshape * fineSizes ss dims := by
+    rw [List.length_flatten, List.map_congr_left (g := fun _ => fineSizes ss dims) h]
+    simp [hn]
+  rw [binTensorL_eq ss dims tshape _ hlen, ← hn, chunks_flatten_eq _ _ h, List.flatMap_def]
+
+/-- the same for one common factor and for `statistic='mean'` (regular grids) -/
+theorem bin_tensor_reshape_independent_uniform (s : Nat) (dims tshape : List Nat) (comps : List (List K))
+    (hn : comps.length = size tshape) (h : ∀ c ∈ comps, c.length = fineSize s dims) :
+    binTensorL (dims.map fun _ => s) dims tshape comps.flatten = (comps.map (binND s dims)).flatten ∧
+    (binTensorL (dims.map fun _ => s) dims tshape comps.flatten).map (· / ((s ^ dims.length : Nat) : K))
+      = (comps.map (binMean s dims)).flatten := by
+  have h' : ∀ c ∈ comps, c.length = fineSizes (dims.map fun _ => s) dims := by
+    intro c hc; rw [fineSizes_replicate]; exact h c hc
+  have e := bin_tensor_reshape_independent (dims.map fun _ => s) dims tshape comps hn h'
+  have e2 : comps.map (binNDs (dims.map fun _ => s) dims) = comps.map (binND s dims) :=
+    List.map_congr_left fun c _ => binNDs_replicate s dims c
+  rw [e, e2]
+  refine ⟨rfl, ?_⟩
+  rw [List.map_flatten, List.map_map]
+  rfl
+
+example : ([[1, 2, 3, 4], [5, 6, 7, 8]] : List (List Rat)).length = size [2] ∧
+    binTensorL [2] [2] [2] ([1, 2, 3, 4, 5, 6, 7, 8] : List Rat) = [3, 7, 11, 15] := by
+  constructor <;> decide +kernel
 
 /-! ## supersampling -/
 
@@ -570,12 +980,29 @@ theorem evalSupersampled_affine_exact [CharZero K] (sep : List (List K)) (ns : L
   simp only [List.length_map] at hl
   exact supersampled_affine_exact_uniform ns h c0 c _ _ hc (by simp [hl, hs]) (by simp [hl, hs])
 
-/-! ## the unrepaired tree -/
+/-- **…in the form of the property**: the result is the generator evaluated on the points of the
+grid itself, in hcipy order (`deltas_length`: one cell width per point). -/
+theorem evalSupersampled_affine_eq_direct [CharZero K] (sep : List (List K)) (ns : List Nat)
+    (h : ∀ n ∈ ns, 0 < n) (c0 : K) (c : List K) (hc : c.length = ns.length)
+    (hs : sep.length = ns.length) (h2 : ∀ ax ∈ sep, 2 ≤ ax.length) :
+    evalSupersampled (affine c0 c) sep ns = (gridPts sep).map (affine c0 c) := by
+  rw [evalSupersampled_affine_exact sep ns h c0 c hc hs, ← gridPts_zip_deltas sep h2, List.map_map]
+  rfl
+
+/-- the same about the generator the driver op `ss` executes (`poly` with zero quadratic part) -/
+theorem evalSupersampled_poly_zero_eq_direct [CharZero K] (sep : List (List K)) (ns : List Nat)
+    (h : ∀ n ∈ ns, 0 < n) (c0 : K) (c : List K) (hc : c.length = ns.length)
+    (hs : sep.length = ns.length) (h2 : ∀ ax ∈ sep, 2 ≤ ax.length) (n : Nat) :
+    evalSupersampled (poly c0 c (List.replicate n 0)) sep ns = (gridPts sep).map (affine c0 c) := by
+  rw [poly_zero]; exact evalSupersampled_affine_eq_direct sep ns h c0 c hc hs h2
+
+/-! ## Old: the unrepaired tree (documentation of D11 / D12, not evidence: /repo is repaired and the
+harness never sends `old`) -/
 
 /-- D11: with the axes handed over un-reversed, the affine field `1 + 2x + 3y` on
 `x = [0,1,2]`, `y = [0,1,3]` is not reproduced at `(3/2, 2)` (12½ instead of 10), and a
 non-square grid is refused altogether. -/
-theorem linearSeparatedOld_wrong :
+theorem Old_linearSeparated_wrong :
     linearSeparatedOld false [[0, 1, 2], [0, 1, 3]] [1, 3, 5, 4, 6, 8, 10, 12, 14] [(3 / 2 : Rat), 2]
       = some (25 / 2) ∧
     linearSeparated false [[0, 1, 2], [0, 1, 3]] [1, 3, 5, 4, 6, 8, 10, 12, 14] [(3 / 2 : Rat), 2]
@@ -586,7 +1013,7 @@ theorem linearSeparatedOld_wrong :
 
 /-- D12: the unrepaired unstructured nearest interpolator returns the `k`-th *source* sample
 for the `k`-th evaluation point, which is not the closest sample. -/
-theorem nearestUnstructuredOld_wrong :
+theorem Old_nearestUnstructured_wrong :
     nearestUnstructuredOld [[0, 0], [1, 0], [0, 1]] [(10 : Rat), 20, 30] 0 [1, 0] = some 10 ∧
     nearestUnstructured [[0, 0], [1, 0], [0, 1]] [(10 : Rat), 20, 30] [1, 0] = some 20 := by
   constructor <;> decide +kernel
